@@ -462,12 +462,16 @@ func (f *Factory) build(b int) {
 			fee = int64(1 + f.rng.Intn(5000))
 		}
 		amt -= fee
+		first := opTrue
+		if f.rng.Intn(3) == 0 { // a script whose length sits on a boundary of the stored-script encodings
+			first = paddedTrue(scriptLens[f.rng.Intn(len(scriptLens))])
+		}
 		switch {
 		case f.rng.Intn(2) == 0 || amt < 4:
-			tx.AddTxOut(&wire.TxOut{Value: amt, PkScript: opTrue})
+			tx.AddTxOut(&wire.TxOut{Value: amt, PkScript: first})
 		default:
 			half := amt / 2
-			tx.AddTxOut(&wire.TxOut{Value: half, PkScript: opTrue})
+			tx.AddTxOut(&wire.TxOut{Value: half, PkScript: first})
 			tx.AddTxOut(&wire.TxOut{Value: amt - half - 1, PkScript: []byte{txscript.OP_1, txscript.OP_NOP}})
 			tx.AddTxOut(&wire.TxOut{Value: 1, PkScript: []byte{txscript.OP_0}}) // an output nobody can spend (script leaves false)
 		}
